@@ -32,6 +32,11 @@ def connrun(pid, tier, seed, replay):
             c08.satellite(v, pid, tier, seed, replay_scn=rep["streamsrv_scenario"])
             v.cov["evaluations"], v.cov["distinct_nontrivial"] = 1, 1
             return v.finish()
+        if "fanout_scenario" in rep:
+            import fanout
+            fanout.satellite(v, pid, tier, seed, replay_scn=rep["fanout_scenario"])
+            v.cov["evaluations"], v.cov["distinct_nontrivial"] = 1, 1
+            return v.finish()
         if "wire_case" in rep:
             import wirecheck
             wirecheck.run_wire(v, tier, seed, rep["wire_case"], part=pid)
@@ -130,6 +135,10 @@ def connrun(pid, tier, seed, replay):
             from checks import c08
             c08.satellite(v, pid, tier, seed)
             v.cov["rule"] += "; plus the streamable-HTTP server transport: gated races, a transition-cover sample of the StreamSrv.tla seam graph and seeded random scenarios on a real StreamableHTTPHandler, judged by the %s clauses of StreamSrvMon" % pid
+        if pid == "C03":
+            import fanout
+            fanout.satellite(v, pid, tier, seed)
+            v.cov["rule"] += "; plus the fan-out satellite (Fanout.tla): programs of fan-out notifications (AddRoots/RemoveRoots, ResourceUpdated), per-session notifications (NotifyProgress, Log) and calls executed by one goroutine over 2-3 real sessions, with messages slow to leave and slow notification handlers, judged per session by the C03.Fanout* clauses of FanoutMon"
     for tid, start, trows in traces[:3]:
         v.sample({"trace": tid, "side": trows[0].get("side"), "steps": conncheck.steps_of(trows)})
     return v.finish()
